@@ -462,13 +462,11 @@ def dump (ind cur : Bytes) : Json → Bytes
   | .num p => p.toStr
   | .str s => dumpStr s
   | .arr xs =>
-    match xs with
-    | [] => [cLBrack, cRBrack]
-    | _ => cLBrack :: ((if ind.isEmpty then [] else [cNl]) ++ dumpArr ind (cur ++ ind) xs ++ cur ++ [cRBrack])
+    if xs.isEmpty then [cLBrack, cRBrack]
+    else cLBrack :: ((if ind.isEmpty then [] else [cNl]) ++ dumpArr ind (cur ++ ind) xs ++ cur ++ [cRBrack])
   | .obj kvs =>
-    match kvs with
-    | [] => [cLBrace, cRBrace]
-    | _ => cLBrace :: ((if ind.isEmpty then [] else [cNl]) ++ dumpObj ind (cur ++ ind) kvs
+    if kvs.isEmpty then [cLBrace, cRBrace]
+    else cLBrace :: ((if ind.isEmpty then [] else [cNl]) ++ dumpObj ind (cur ++ ind) kvs
               ++ (if ind.isEmpty then [] else cur) ++ [cRBrace])
 def dumpArr (ind ni : Bytes) : List Json → Bytes
   | [] => []
@@ -477,9 +475,8 @@ def dumpObj (ind ni : Bytes) : Obj → Bytes
   | [] => []
   | (k, v) :: r =>
     ni ++ dumpStr k ++ [cColon, cSp]
-      ++ (match v with
-          | .none => [cLBrace, cRBrace]        -- "Temporary until jsonRef"
-          | v => dump ind ni v)
+      ++ (if v.isNone then [cLBrace, cRBrace]        -- "Temporary until jsonRef"
+          else dump ind ni v)
       ++ sepAfter ind r.isEmpty ++ dumpObj ind ni r
 end
 
@@ -510,7 +507,7 @@ inductive Err
   | addTypes            -- "Cannot apply operator + with different JSON types"
   | notArray            -- "Can only apply operator [] with JSON arrays"
   | typeNotSet          -- primitive "Type not set"
-  | fuel                -- model artefact: recursion budget exhausted (never for fuel ≥ length + 1)
+  | fuel                -- model artefact: recursion budget exhausted (never with `parseFuel`)
 deriving DecidableEq, Repr, Inhabited
 
 def Err.name : Err → String
@@ -635,10 +632,15 @@ def loadArrLoop : Nat → Bytes → List Json → Res Json
       else .error .arrSep
 end
 
+/-- recursion budget that suffices for any text of length `len`: every nested call of `load`,
+    `loadObjLoop`, `loadArrLoop` happens after at least one character was consumed (C24_fuel_suffices
+    proves it for dumped values) -/
+def parseFuel (len : Nat) : Nat := 2 * len + 2
+
 /-- json::parse(const std::string&): the reader sees the bytes up to the first NUL -/
 def parse (s : Bytes) : Except Err Json :=
   let t := cstr s
-  match load (t.length + 1) t with
+  match load (parseFuel t.length) t with
   | .ok (v, _) => .ok v
   | .error e => .error e
 
